@@ -42,3 +42,6 @@ mod util;
 mod tests;
 
 pub use root::generate_rust_stub;
+
+#[cfg(feature = "verif")]
+pub use util::verif_hooks as verif_util;
